@@ -194,13 +194,19 @@ class Decimal(SimpleModel):
 
     @staticmethod
     def validate_native(cls, value):
-        return SimpleModel.validate_native(cls, value) and (
-            value is None or (
-                value >  cls.Attributes.gt and
-                value >= cls.Attributes.ge and
-                value <  cls.Attributes.lt and
-                value <= cls.Attributes.le
-            ))
+        try:
+            return SimpleModel.validate_native(cls, value) and (
+                value is None or (
+                    value >  cls.Attributes.gt and
+                    value >= cls.Attributes.ge and
+                    value <  cls.Attributes.lt and
+                    value <= cls.Attributes.le
+                ))
+
+        except (TypeError, decimal.InvalidOperation):
+            # not comparable with a number: a NaN, or something that is not a
+            # number at all (e.g. a date from a yaml document).
+            return False
 
 
 class Double(Decimal):
